@@ -8,10 +8,11 @@
    all seven fields, for piece moves incl. en passant and promotion (C02_piece_move) and both castlings (C02_castling).
    The checked form make_move applies the same function after the legality test (C02_checked_form).  The non-mutating
    form is a pure function in the model; that the library leaves the receiver untouched is observed by the differential
-   run (field forms).  Not a theorem yet: that the application never returns the Panic outcome for legal moves (it needs
-   the king-safety part of C01) and that validity is preserved along a history; both are decided by the differential
-   run at every ply of every explored history. *)
-Require Import LC.model.Prims LC.model.Board LC.spec.Chess LC.proofs.MaskInv LC.proofs.C05Proofs LC.proofs.C02Proofs.
+   run (field forms).  C02_history: along EVERY finite sequence of applied moves from
+   any constructed position every applied move is rule-legal and the board's mailbox position is the rule-level play of
+   the same moves (so the successor is pinned at every ply of every history).  C02_total: on such a position the
+   application of a rule-legal move never panics and never errs (proofs/Total.v). *)
+Require Import LC.model.Prims LC.model.Board LC.spec.Chess LC.proofs.MaskInv LC.proofs.C05Proofs LC.proofs.C02Proofs LC.proofs.MoveInv LC.proofs.Reach LC.proofs.C09Proofs LC.proofs.Total.
 Open Scope N_scope.
 Theorem C02_piece_move : forall K b m b', MaskInv b -> valid (abs b) = true -> legal (abs b) (MovePiece m) = true ->
   pm_from m < 64 -> pm_to m < 64 -> make_move_unchecked K b (MovePiece m) = Ok b' -> abs b' = apply (abs b) (MovePiece m).
@@ -24,3 +25,14 @@ Theorem C02_checked_form : forall K b mv b', make_move K b mv = Ok b' -> make_mo
 Proof.
   intros K b mv b' E. unfold make_move in E. destruct (is_legal_move K b mv) as [[]| |]; cbn in E; try discriminate. exact E.
 Qed.
+Theorem C02_step : forall K b mv b', Good K b -> wf_bmove mv -> make_move K b mv = Ok b' ->
+  legal (abs b) mv = true /\ abs b' = apply (abs b) mv /\ Good K b'.
+Proof. exact good_step. Qed.
+Theorem C02_history : forall K ms b b', Good K b -> Forall wf_bmove ms -> play K b ms = Ok b' ->
+  Good K b' /\ abs b' = spec_play (abs b) ms /\ all_legal (abs b) ms = true.
+Proof. exact good_play. Qed.
+Theorem C02_constructed_is_good : forall K bd b, wf_builder bd -> try_from_builder K bd = Ok b -> Good K b /\ abs b = pos_of bd.
+Proof. exact good_build. Qed.
+Theorem C02_total : forall K b mv, MaskInv b -> valid (abs b) = true -> legal (abs b) mv = true -> wf_bmove mv ->
+  exists b', make_move_unchecked K b mv = Ok b'.
+Proof. exact make_move_unchecked_total. Qed.
